@@ -82,3 +82,81 @@ pub fn write<'a, T>(
     });
     got.expect("block_until returned without the lock")
 }
+
+/// Atomics that are a possible preemption point before every operation (so that a simulator can
+/// interleave threads between any two atomic accesses); with no hook table installed they are
+/// plain `std` atomics.
+pub mod atomic {
+    use super::point;
+    use std::sync::atomic::Ordering;
+
+    /// `std::sync::atomic::AtomicUsize` with a preemption point before each operation.
+    #[derive(Debug, Default)]
+    pub struct AtomicUsize(std::sync::atomic::AtomicUsize);
+
+    #[allow(missing_docs)]
+    impl AtomicUsize {
+        pub const fn new(v: usize) -> Self {
+            AtomicUsize(std::sync::atomic::AtomicUsize::new(v))
+        }
+        pub fn get_mut(&mut self) -> &mut usize {
+            self.0.get_mut()
+        }
+        pub fn into_inner(self) -> usize {
+            self.0.into_inner()
+        }
+        pub fn load(&self, o: Ordering) -> usize {
+            point("atomic:usize:load");
+            self.0.load(o)
+        }
+        pub fn store(&self, v: usize, o: Ordering) {
+            point("atomic:usize:store");
+            self.0.store(v, o)
+        }
+        pub fn swap(&self, v: usize, o: Ordering) -> usize {
+            point("atomic:usize:swap");
+            self.0.swap(v, o)
+        }
+        pub fn fetch_add(&self, v: usize, o: Ordering) -> usize {
+            point("atomic:usize:fetch_add");
+            self.0.fetch_add(v, o)
+        }
+        pub fn fetch_sub(&self, v: usize, o: Ordering) -> usize {
+            point("atomic:usize:fetch_sub");
+            self.0.fetch_sub(v, o)
+        }
+        pub fn fetch_max(&self, v: usize, o: Ordering) -> usize {
+            point("atomic:usize:fetch_max");
+            self.0.fetch_max(v, o)
+        }
+        pub fn compare_exchange(
+            &self,
+            c: usize,
+            n: usize,
+            s: Ordering,
+            f: Ordering,
+        ) -> Result<usize, usize> {
+            point("atomic:usize:cas");
+            self.0.compare_exchange(c, n, s, f)
+        }
+        pub fn compare_exchange_weak(
+            &self,
+            c: usize,
+            n: usize,
+            s: Ordering,
+            f: Ordering,
+        ) -> Result<usize, usize> {
+            point("atomic:usize:cas");
+            self.0.compare_exchange(c, n, s, f)
+        }
+        pub fn fetch_update<F: FnMut(usize) -> Option<usize>>(
+            &self,
+            s: Ordering,
+            f: Ordering,
+            g: F,
+        ) -> Result<usize, usize> {
+            point("atomic:usize:fetch_update");
+            self.0.fetch_update(s, f, g)
+        }
+    }
+}
